@@ -58,11 +58,15 @@ CLAIMED = {
               "resource and inside %include fragments at any depth.",
               _CFG_NOTE, "Lean 4 proof (culprit position, unbounded) + fault injection with known culprit", "§0.2, §7 C08"),
     "C09": _c("PROVED for all strings, per datatype: model (through generated patterns, word tuples, bounds, suffix tables) = documented contract "
-              "(56 theorems: basic-key, identifier, dotted-name, dotted-suffix, boolean, port-number, byte-size, time-interval, inet-address, "
+              "(76 theorems: basic-key, identifier, dotted-name, dotted-suffix, boolean, port-number, byte-size, time-interval, inet-address, "
               "socket-address, ipaddr-or-hostname exact with a declarative IPv6 text grammar proved equal to the inet_pton re-implementation, "
-              "integer and float literal grammars, string-list, timedelta incl. the TypeError carve-out; totality of the stock table; key types "
-              "idempotent). Exhaustive/probe correspondence for every modelled stock datatype; locale and existing-* depend on the host and are explored only.",
-              "trusted: Lean kernel; extract.py; regex semantics; pyInt/lower/strip models; glibc inet_pton6 re-implementation (compared with socket.inet_pton on every probe).",
+              "integer and float literal grammars, string-list, timedelta incl. the TypeError carve-out; key types idempotent; the six host-dependent "
+              "types — existing-directory/-path/-file/-dirpath, locale behind MemoizedConversion, timedelta's constructor — over a Host parameter "
+              "(os.path.dirname modelled exactly, MemoizedConversion transparent for every call sequence, failures not cached); C09_total_all: totality "
+              "of the complete 26-name table for every host). Exhaustive/probe correspondence for every stock datatype; the host-dependent ones on a "
+              "scratch tree / HOME / cwd / probed locales, real vs contract-from-probes vs model on the probed host table.",
+              "trusted: Lean kernel; extract.py; regex semantics; pyInt/lower/strip models; glibc inet_pton6 re-implementation (compared with socket.inet_pton on every probe); "
+              "host parameters: os.path.isdir/isfile/exists/expanduser, setlocale acceptance, datetime.timedelta's numeric verdict (probed on every run).",
               "Lean 4 proof (model = contract per datatype) + regenerated patterns/tables + exhaustive correspondence", "§0.2, §7 C09"),
     "C10": _c("Model ZCV/Model/Elab.lean of schema.py + info.py (schema loading from the XML element tree, components, base schemas). PROVED: "
               "one theorem per static rule (50: unique type names, unique keys/attributes incl. inherited, defined before use, extends concrete / "
